@@ -66,9 +66,21 @@ def _make_module(tag):
     mod.hook_method = _Callable().method             # a callable object, a bound method, a partial
     mod.hook_partial = functools.partial(lambda extra, params: hook(params), 0)
 
+    if tag == 'lazy':
+        # the agent class of this module only becomes resolvable through the group's own pre hook (a legal description:
+        # resolution belongs to "creation", which comes after the pre hook)
+        def lazy_hook(params):
+            hook(params)
+            if str(params['name']).startswith('pre_grp'):
+                mod.DAgent = DAgent
+            elif str(params['name']).startswith('post_grp') and hasattr(mod, 'DAgent'):
+                del mod.DAgent
+        mod.lazy_hook = lazy_hook
     for c_ in (DModel, DSystem, DAgent):
         c_._mod = name
     mod.DModel, mod.DSystem, mod.DAgent, mod.hook = DModel, DSystem, DAgent, hook
+    if tag == 'lazy':
+        del mod.DAgent
     sys.modules[name] = mod
     return mod
 
@@ -101,7 +113,8 @@ def build(desc):
             d['params']['agent_index'] = 7
             d['params']['model'] = None
         if g['pre']:
-            d['pre_agent_init'] = {'func': 'hook', 'module': gm, 'params': {'name': f'pre_grp{k}'}}
+            d['pre_agent_init'] = {'func': 'lazy_hook' if g['mod'] == 'lazy' else 'hook', 'module': gm,
+                                   'params': {'name': f'pre_grp{k}'}}
         if g['post']:
             d['post_agent_init'] = {'func': hk, 'module': gm, 'params': {'name': f'post_grp{k}'}}
         data['agents'].append(d)
@@ -136,6 +149,7 @@ def run_history(h, props=None):
     from ECAgent.Decode import Decoder
     _make_module('a')
     _make_module('b')
+    _make_module('lazy')
     out = []
 
     class MemDecoder(Decoder):
@@ -238,6 +252,7 @@ def histories(seed, budget, prop='C18'):
                  groups=[dict(g, mod='b') for g in full['groups']])
     yield ('decode', [full, other, full])
     yield ('decode_json', [full, other])
+    yield ('decode', [dict(full, groups=[dict(n=2, pre=True, post=False, mod='lazy'), dict(n=1, pre=True, post=True, mod='a')])])
     for hk in ('hook_obj', 'hook_method', 'hook_partial'):
         yield ('decode', [dict(full, hookkind=hk)])
     yield ('decode_json', [dict(full, groups=[dict(n=0, pre=True, post=True, mod='a'), dict(n=2, pre=True, post=False, mod='a'),
